@@ -29,7 +29,8 @@ fn main() {
                         let (c, extra) = lsmv::special::c20_crash_stage(seed);
                         code = c;
                         // fold the stage into the evidence file
-                        let p = "/verif/evidence/C20.json";
+                        let p = lsmv::util::verif_root().join("evidence/C20.json");
+                        let p = p.as_path();
                         if let Ok(txt) = std::fs::read_to_string(p) {
                             if let Ok(mut v) = serde_json::from_str::<serde_json::Value>(&txt) {
                                 if let (Some(cov), Some(e)) = (v["coverage"].as_object_mut(), extra.as_object()) {
